@@ -93,8 +93,9 @@ pub fn nested_types(tier: Tier, v: &mut impl Visitor) {
     // scalar factor `is_zero`, which for a dual number looks at the real part only)
     v.visit::<f64, Dual2Vec<Dual64, f64, Const<2>>>(Dims::n(2));
     v.visit::<f64, HyperDualVec<Dual64, f64, Const<2>, Const<2>>>(Dims::mn(2, 2));
+    // two levels of nesting
+    v.visit::<f64, Dual<Dual<Dual64, f64>, f64>>(Dims::NONE);
     if tier == Tier::Thorough {
-        v.visit::<f64, Dual<Dual<Dual64, f64>, f64>>(Dims::NONE);
         v.visit::<f64, Dual2<Dual2_64, f64>>(Dims::NONE);
         v.visit::<f64, Dual<Dual3_64, f64>>(Dims::NONE);
         v.visit::<f64, Dual<DualSVec64<2>, f64>>(Dims::n(2));
@@ -102,11 +103,24 @@ pub fn nested_types(tier: Tier, v: &mut impl Visitor) {
     }
 }
 
+/// one larger size of each vector type (loops unrolled or specialised for small sizes, chunked loops
+/// with a remainder, M != N both above 2); visited by the tolerance-based checks that can afford it
+pub fn larger_vector_types(v: &mut impl Visitor) {
+    v.visit::<f64, DualVec<f64, f64, Const<5>>>(Dims::n(5));
+    v.visit::<f64, Dual2Vec<f64, f64, Const<4>>>(Dims::n(4));
+    v.visit::<f64, HyperDualVec<f64, f64, Const<3>, Const<4>>>(Dims::mn(3, 4));
+    v.visit::<f64, DualVec<f64, f64, Dyn>>(Dims::n(7));
+    v.visit::<f64, Dual2Vec<f64, f64, Dyn>>(Dims::n(5));
+    v.visit::<f64, HyperDualVec<f64, f64, Dyn, Dyn>>(Dims::mn(4, 3));
+    v.visit::<f32, DualVec<f32, f32, Dyn>>(Dims::n(6));
+}
+
 pub fn whole_universe(tier: Tier, v: &mut impl Visitor) {
     scalar_types(v);
     static_vector_types(tier, v);
     let lens: &[usize] = if tier == Tier::Thorough { &[0, 1, 2, 3, 4] } else { &[0, 1, 2] };
     dynamic_vector_types(lens, v);
+
     nested_types(tier, v);
 }
 
